@@ -237,6 +237,30 @@ class Lockstep(object):
             if m.at(i) != k or m.value_at(i) != v or m.index(k) != i:
                 viol('inconsistent-views', 'at()/value_at()/index() disagree with items() at %d: %r' % (i, items))
                 return False
+        # every way of taking the map's content elsewhere gives the same items in the same order: the copy protocol
+        # (copy.copy / deepcopy / a copy() method if there is one), dict() and list() conversions, a new map built from it
+        import copy as _copy
+        takes = [('copy.copy', lambda: _copy.copy(m)), ('copy.deepcopy', lambda: _copy.deepcopy(m)),
+                 ('type(m)(m.items())', lambda: type(m)(list(m.items()))), ('dict(m)', lambda: dict(m))]
+        if hasattr(m, 'copy'):
+            takes.append(('m.copy()', lambda: m.copy()))
+        for name, fn in takes:
+            try:
+                c = fn()
+                got = list(c.items())
+            except Exception as e:   # noqa
+                viol('copy-raises:' + type(e).__name__, '%s of map %r raised %s: %s' % (name, items, type(e).__name__, str(e)[:80]))
+                return False
+            if got != items:
+                viol('copy-differs', '%s of map %r has items %r' % (name, items, got))
+                return False
+            if name != 'dict(m)' and (list(c.keys()) != keys or list(c) != keys or len(c) != len(keys)):
+                viol('copy-differs', '%s of map %r iterates as %r' % (name, items, list(c)))
+                return False
+        ctx.count('copies compared', len(takes))
+        if list(m.items()) != items:
+            viol('copy-changed-the-original', 'taking copies changed the map from %r to %r' % (items, list(m.items())))
+            return False
         ctx.count('states compared')
         return True
 
